@@ -409,6 +409,38 @@ fn read_sync_filter(&self, Tracked(st): Tracked<&mut St>, frame: &Frame) -> (kee
 //@@ end
 }
 
+// read_sync as a whole, with the expiry-filter closure (verified above as `read_sync_filter`) replaced by its contract:
+// the ORDER of the adapters -- filter first, then take(limit) -- and the default limit (C01: "cut to the first `limit` of those")
+pub open spec fn live_only(fs: Seq<Frame>) -> Seq<Frame> decreases fs.len() {
+    if fs.len() == 0 { Seq::empty() } else if !frame_expired(&fs.last()) { live_only(fs.drop_last()).push(fs.last()) } else { live_only(fs.drop_last()) }
+}
+impl SeqIter<Frame> {
+    // `.filter(<the expiry closure>)` with the closure replaced by its verified contract (store.read_sync.filter_drops_exactly_expired)
+    #[verifier::external_body]
+    pub fn filter_live(self) -> (r: SeqIter<Frame>)
+        ensures seq_items(&r) == live_only(seq_items(&self)),
+            seq_origin(&r) == seq_items(&self), seq_src(&r) == seq_src(&self), seq_idx(&r) == seq_idx(&self), seq_bounds(&r) == seq_bounds(&self),
+    { unimplemented!() }
+}
+impl Store {
+//@@ item file=src/store/mod.rs fn=read_sync impl=Store ret=r as=read_sync_chain
+//@@ rewrite: impl Iterator<Item = Frame> + '_ ==> ! SeqIter<Frame>
+//@@ after_all: pub fn read_sync( &self, ==> Tracked(st): Tracked<&St>,
+//@@ rewrite: self.iter_frames( ==> ! self.iter_frames(Tracked(st),
+//@@ elide_arg: .filter( ==>
+//@@ rewrite: .filter( ==> .filter_live(
+//@@ spec
+    requires store_wf(self),
+        forall|k: Seq<u8>| st.parts.idx_ctx.contains_key(k) ==> k.len() == 32,
+        context_id matches Some(c) ==> id_u128(c) < u128::MAX,
+    ensures
+        // what iter_frames yields for (context, last_id) ...
+        iter_frames_post(st, opt_id_v(context_id), opt_id(last_id), seq_origin(&r), seq_src(&r), seq_idx(&r), seq_bounds(&r)), //# store.read_sync.scans_requested_scope
+        // ... minus the expired frames, THEN cut to the first `limit` (all of them without a limit)
+        seq_items(&r) == take_n(live_only(seq_origin(&r)), match limit { Some(n) => n, None => usize::MAX }), //# store.read_sync.filter_then_take_limit
+//@@ end
+}
+
 // the context registry after a reload over `frames`: ids of the xs.context frames, added to what was there
 pub open spec fn reload_ctx(base: Set<u128>, frames: Seq<Frame>) -> Set<u128> decreases frames.len() {
     if frames.len() == 0 { base } else {
